@@ -17,12 +17,22 @@ Streams
              a watchdog, counting entries of the wrapped _infer_node body per context:
              no RecursionError, no hang, per-context entries <= cap (theorem node_cap), growth of
              the families polynomial (doubling ratio) and under the model bound
+  mro        ClassValue.py__mro__ of the last class of random acyclic class hierarchies (several,
+             repeated and shared bases) vs Model.Mro.mroWith: the listing, and the number of
+             elements drawn from all py__mro__ iterators vs the model's loop iterations
+  scaling    (besides the families of e2e) inheritance families - chains, nested diamonds, mixin
+             ladders, lattices, trees, shared mixins; complete after `x.m_`, infer / goto of an attribute
+             of the root class - each family in a child process (gen/c15_inherit_child.py) that
+             counts elements drawn from ClassMixin.py__mro__ iterators, _infer_node entries, function
+             calls (sys.setprofile) and CPU time: work(2n) <= 8 work(n) + slack for each measure, cut
+             off at that bound; a CPU cut-off must repeat on 3 attempts (the counters are exact)
 """
 import itertools
 import json
 import os
 import shutil
 import signal
+import subprocess
 import sys
 import tempfile
 import time
@@ -30,8 +40,9 @@ import time
 import common
 from common import short
 from gen import c15_programs as P
+from gen import c15_inherit_child as IC
 
-MODELS = ['Recursion']
+MODELS = ['Recursion', 'Mro']
 MANIFEST = dict(
     text='Theorems over a transcription of ExecutionRecursionDetector.push/pop, '
          'execution_recursion_decorator, execution_allowed, _memoize_default and _limit_value_infers: '
@@ -43,12 +54,19 @@ MANIFEST = dict(
          'every finite graph with each body entered at most once, calls <= 1+|E| '
          '(memo_eval_terminates_linear; without default it diverges on a self loop - kernel-checked); the '
          'on-stack guard alone bounds depth by |V| but not work (2^n witness); _limit_value_infers enters a '
-         'context at most 300 times per Script (node_cap). Tie: translator (limits, cap, statement '
-         'sequences of push/pop/decorator/memoize) + decision-by-decision correspondence on the real '
-         'objects + end-to-end runs of generated cyclic programs and scaling families under a watchdog.',
+         'context at most 300 times per Script (node_cap); the listing ClassMixin.py__mro__ over ANY '
+         'inheritance relation on n classes contains no class twice, so its length is <= n (mro_linear), '
+         'one body does <= |bases| n loop iterations and all bodies together <= |E| n (mro_work_poly), '
+         'acyclic hierarchies never exhaust the stack (mro_terminates); recording the direct base instead '
+         'of the yielded class lists 2^(k+2)-3 entries on k nested diamonds (kernel-checked witness). '
+         'Tie: translator (limits, cap, statement sequences of push/pop/decorator/memoize/py__mro__; the '
+         'appended, tested and yielded element of py__mro__ are the same variable) + decision-by-decision '
+         'correspondence on the real objects + end-to-end runs of generated cyclic programs and scaling '
+         'families (definition chains/diamonds/trees in-process, inheritance families in child processes '
+         'counting MRO entries, _infer_node entries, function calls and CPU time) under a watchdog.',
     note='Modelled not verified: that every inference path of jedi is built only from these combinators '
-         '(sampled by stream e2e); the lazily interleaved generator cache (oracle only); builtins/typing '
-         'exemptions are flags of the pushed execution.',
+         '(sampled by streams e2e and scaling); the lazily interleaved generator cache (oracle only), hence '
+         'cyclic inheritance in py__mro__; builtins/typing exemptions are flags of the pushed execution.',
     technique='Lean 4 proof over hand-written model + translator-generated constants + differential correspondence',
     design='5.C15')
 LEAN_TARGETS = ['JediModel.Props.C15', 'JediModel.Drivers.C15']
@@ -540,6 +558,266 @@ def stream_limit(ctx, reqs, cap, factor):
     return cases
 
 
+# ----------------------------------------------------------------- stream: mro (correspondence)
+
+def random_hierarchy(rng):
+    """acyclic class hierarchy K0..K{n-1}: bases[i] = explicit bases of K_i (earlier classes only;
+    several, shared, now and then repeated)"""
+    n = rng.randint(1, 12)
+    style = rng.choice(['random', 'dense', 'chain', 'diamonds', 'lattice'])
+    bases = []
+    for i in range(n):
+        if i == 0:
+            bases.append([])
+        elif style == 'chain':
+            bases.append([i - 1] if rng.random() < 0.9 else [])
+        elif style == 'diamonds':
+            # i % 3 == 0: join of the two before; else child of the last join
+            bases.append([i - 2, i - 1] if i % 3 == 0 else [i - 1 - (i - 1) % 3])
+        elif style == 'lattice':
+            lvl = (i - 1) // 2
+            below = [0] if lvl == 0 else [2 * lvl - 1, 2 * lvl]
+            bases.append([b for b in below if b < i])
+        else:
+            k = rng.randint(0, min(i, 2 if style == 'random' else 4))
+            b = rng.sample(range(i), k)
+            if b and rng.random() < 0.08:
+                b.append(rng.choice(b))         # class X(A, A)
+            bases.append(b)
+    return n, bases, style
+
+
+def hierarchy_source(n, bases):
+    lines = []
+    for i in range(n):
+        lines.append("class K%d%s:\n    a%d = %d" % (i, "(%s)" % ", ".join("K%d" % b for b in bases[i])
+                                                     if bases[i] else "", i, i))
+    return "\n".join(lines) + "\n"
+
+
+def run_mro_impl(counter, n, bases, root):
+    """list(K_root.py__mro__()) on a fresh Script; classes as numbers, `object` = n"""
+    import jedi
+    src = hierarchy_source(n, bases) + "K%d" % root
+    line, col = P.last_pos(src)
+    names = jedi.Script(src).infer(line, col)
+    if len(names) != 1 or names[0].type != 'class':
+        return {'error': 'infer gave %r' % [d.description for d in names]}
+    value = names[0]._name._value
+    counter.reset()
+    out = []
+    for c in value.py__mro__():
+        nm = c.py__name__()
+        if nm == 'object':
+            out.append(n)
+        elif nm.startswith('K') and nm[1:].isdigit():
+            out.append(int(nm[1:]))
+        else:
+            out.append(nm)
+    return {'out': out, 'items': counter.items}
+
+
+def mro_model_view(case, ans):
+    """the model's answer in the shape of run_mro_impl: the listing, and the elements handed out by
+    ClassMixin.py__mro__ iterators = the root's listing + for every class whose body ran (each once:
+    generator cache) one element per inner-loop iteration over a base that is a ClassValue (the
+    compiled `object` has a py__mro__ of its own, which the hook does not see)"""
+    if not isinstance(ans, dict) or 'out' not in ans:
+        return ans
+    n, mb = case['n'], case['model_bases']
+    items = len(ans['out'])
+    for c in ans['out']:
+        if c == n:
+            continue
+        b = ans['bodies'][c]
+        if 'steps' not in b:
+            return {'error': 'body %d: %r' % (c, b)}
+        items += b['steps'] - mb[c].count(n)
+    return {'out': ans['out'], 'items': items}
+
+
+def stream_mro(ctx, reqs):
+    rng = ctx.subrng('mro')
+    cases = []
+    try:
+        counter = IC.MroCounter().__enter__()
+    except LookupError as e:
+        ctx.tie_broken('hook:ClassMixin.py__mro__', str(e))
+        return cases
+    try:
+        fixed = [(7, [[], [0], [0], [1, 2], [3], [3], [4, 5]], 'diamonds'),
+                 (4, [[], [0], [0], [1, 2]], 'diamonds'),
+                 (5, [[], [], [0, 1], [0, 1], [2, 3]], 'lattice'),
+                 (3, [[], [0], [1, 0]], 'random'), (3, [[], [0, 0], [1, 1]], 'random')]
+        for i in range(len(fixed) + ctx.size(60, 1500)):
+            n, bases, style = fixed[i] if i < len(fixed) else random_hierarchy(rng)
+            root = n - 1 if i < len(fixed) or rng.random() < 0.7 else rng.randrange(n)
+            model_bases = [b if b else [n] for b in bases] + [[]]
+            case = {'n': n, 'bases': bases, 'root': root, 'model_bases': model_bases}
+            try:
+                obs = run_mro_impl(counter, n, bases, root)
+            except RecursionError as e:
+                ctx.fail('mro', 'py__mro__ of an acyclic hierarchy raises RecursionError', case,
+                         observed={'dominant_frame': dominant_frame(e)})
+                continue
+            except Exception as e:
+                cls, site = common.exc_site(e)
+                ctx.count('raised', ('mro', i), nontrivial=False, bucket='%s@%s' % (cls, site))
+                continue
+            cases.append((('mro', case, style), obs))
+            reqs.append({'op': 'mro', 'bases': model_bases, 'root': root, 'fuel': n + 2})
+    finally:
+        counter.__exit__()
+    return cases
+
+
+# ----------------------------------------------------------------- stream: scaling (inheritance)
+
+INHERIT = dict(ratio=8, item_slack=64, call_slack=200000, cpu_slack=10.0, cpu_abs=30.0, cpu_attempts=3)
+CHILD = os.path.join(os.path.dirname(os.path.abspath(IC.__file__)), 'c15_inherit_child.py')
+
+
+def inherit_sizes(ctx):
+    return [2, 3, 4, 6, 8, 12, 16] if ctx.quick else list(range(1, 33)) + [40, 48, 64]
+
+
+def inherit_cfg(fam, sizes):
+    return dict(INHERIT, repo=common.REPO, family=fam, sizes=sizes)
+
+
+def start_inherit(ctx, families=None, sizes=None):
+    """one child per family, all at once; they run while the in-process streams do"""
+    procs = []
+    for fam in families or sorted(P.INHERIT_FAMILIES):
+        err = tempfile.TemporaryFile(mode='w+')
+        p = subprocess.Popen([sys.executable, CHILD, json.dumps(inherit_cfg(fam, sizes or inherit_sizes(ctx)))],
+                             stdout=subprocess.PIPE, stderr=err, text=True)
+        procs.append((fam, p, err))
+    return procs, time.time()
+
+
+def read_child(p, err, deadline):
+    killed = False
+    try:
+        out, _ = p.communicate(timeout=max(1.0, deadline - time.time()))
+    except subprocess.TimeoutExpired:
+        p.kill()
+        killed = True
+        out, _ = p.communicate()
+    err.seek(0)
+    etxt = err.read()
+    err.close()
+    rows = []
+    for ln in out.splitlines():
+        try:
+            rows.append(json.loads(ln))
+        except ValueError:
+            pass
+    return rows, killed, etxt
+
+
+def judge_inherit(ctx, fam, rows, killed, etxt, waited, cap):
+    R, I, CS = INHERIT['ratio'], INHERIT['item_slack'], INHERIT['call_slack']
+    mk = P.INHERIT_FAMILIES[fam]
+    how = ('python harness/gen/c15_inherit_child.py \'{"family": "%s", "sizes": [n/2, n], ...}\' '
+           '(= ./check C15 --replay <this file>): jedi.Script(source).<query>(line, column) with '
+           'ClassMixin.py__mro__ wrapped by gen.c15_inherit_child.MroCounter' % fam)
+
+    def case_of(n, q):
+        src, _, attr = mk(n)
+        for q2, text, line, col in P.inherit_queries(src, attr):
+            if q2 == q:
+                return {'family': fam, 'n': n, 'query': q, 'source': text, 'line': line, 'column': col}
+    done = {}
+    started = None
+    ended = False
+    for r in rows:
+        ev = r.get('ev')
+        if ev == 'hook-missing':
+            ctx.tie_broken('hook:ClassMixin.py__mro__', r.get('detail', ''))
+            return
+        if ev == 'start':
+            started = r
+        elif ev == 'done':
+            done[(r['n'], r['q'])] = r
+            started = None
+        elif ev in ('end', 'stopped'):
+            ended = True
+    if killed:
+        if started is None:
+            raise common.InfraError('inheritance child %s killed by the watchdog outside a query: %s'
+                                    % (fam, etxt[-1500:]))
+        ctx.fail('scaling', 'query on an inheritance family did not return within %.0f s' % waited,
+                 case_of(started['n'], started['q']), expected='returns',
+                 observed={'outcome': 'hang', 'measured_before': {'%d/%s' % k: v['items'] for k, v in done.items()}},
+                 how=how)
+    elif not ended:
+        raise common.InfraError('inheritance child %s died: %s' % (fam, etxt[-2000:]))
+    work = {}
+    for (n, q), r in sorted(done.items()):
+        half = done.get((n // 2, q)) if n % 2 == 0 else None
+        ok = r['outcome'] == 'ok'
+        ctx.count('scaling', (fam, n, q), nontrivial=ok and r['results'] > 0, bucket=fam,
+                  sample={'family': fam, 'n': n, 'query': q, 'classes': r['classes'], 'mro_items': r['items'],
+                          'listings': r['listings'], 'longest_listing': r['maxlen'], 'entries': r['entries'],
+                          'calls': r.get('calls'), 'cpu_seconds': r['cpu'], 'results': r['results']})
+        work.setdefault(q, {})[n] = [r['items'], r['entries'], r.get('calls'), r['cpu']]
+        case = case_of(n, q)
+        if r['outcome'] == 'RecursionError':
+            ctx.fail('scaling', 'query on an inheritance family raises RecursionError', case,
+                     expected='no RecursionError', observed={'outcome': 'RecursionError', 'error': r['error']}, how=how)
+        elif r['outcome'] == 'raised':
+            ctx.count('raised', (fam, n, q), nontrivial=False, bucket=str(r['error']).split(':')[0])
+        elif r['outcome'] == 'items-cap' or (ok and half and n >= 8 and half['outcome'] == 'ok'
+                                             and r['items'] > R * half['items'] + I):
+            ctx.fail('scaling', 'MRO entries listed grow faster than any cubic between n and 2n', case,
+                     expected={'items(2n)<=': R * half['items'] + I},
+                     observed={'items(n)': half['items'], 'items(2n)' + ('>' if not ok else ''): r['items'],
+                               'classes': r['classes'], 'longest_listing_so_far': r['maxlen'],
+                               'all': {str(k[0]): v['items'] for k, v in sorted(done.items()) if k[1] == q}},
+                     how=how)
+        elif r['outcome'] == 'calls-cap' or (ok and half and n >= 8 and half['outcome'] == 'ok'
+                                             and r.get('calls') is not None and half.get('calls') is not None
+                                             and r['calls'] > R * half['calls'] + CS):
+            ctx.fail('scaling', 'function calls made by the query grow faster than any cubic between n and 2n', case,
+                     expected={'calls(2n)<=': R * half['calls'] + CS},
+                     observed={'calls(n)': half['calls'], 'calls(2n)' + ('>' if not ok else ''): r['calls'],
+                               'classes': r['classes'], 'mro_items': r['items'],
+                               'all': {str(k[0]): v.get('calls') for k, v in sorted(done.items()) if k[1] == q}},
+                     how=how + '; calls = `call` + `c_call` events of sys.setprofile')
+        elif r['outcome'] == 'cpu-cap':
+            ctx.fail('scaling', 'CPU time grows faster than any cubic between n and 2n' if half else
+                     'query on an inheritance family needs more than %.0f s CPU' % INHERIT['cpu_abs'], case,
+                     expected={'cpu_seconds<=': r['cpu_cap']},
+                     observed={'cpu(n)': half['cpu'] if half else None,
+                               'cpu(2n) cut off by the CPU timer on every attempt after': r.get('cpu_attempts'),
+                               'classes': r['classes'], 'mro_items_so_far': r['items']}, how=how)
+        elif ok and half and half['outcome'] == 'ok' and n >= 8 and r['entries'] is not None \
+                and half['entries'] is not None and r['entries'] > R * half['entries'] + I:
+            ctx.fail('scaling', 'work grows faster than any cubic between n and 2n', case,
+                     expected={'work(2n)<=': R * half['entries'] + I},
+                     observed={'work(n)': half['entries'], 'work(2n)': r['entries']},
+                     how='count entries of the _infer_node body for n and 2n')
+        # model bound (theorems node_cap / bounded_work), as for the families of stream e2e: the
+        # entries are spread over at most 1 + classes + methods contexts of this module
+        if ok and r['entries'] is not None and r['entries'] > max(1, cap) * (2 + 2 * r['classes']):
+            ctx.fail('scaling', 'more inference-body entries than cap x contexts', case,
+                     expected={'<=': cap * (2 + 2 * r['classes'])}, observed={'entries': r['entries']}, how=how)
+    ctx.hist.setdefault('scaling-work', {})[fam] = {
+        q: {str(n): v for n, v in sorted(w.items())} for q, w in work.items()}
+
+
+def collect_inherit(ctx, started, cap):
+    procs, t0 = started
+    deadline = t0 + ctx.size(240, 1800)
+    pending = []
+    for fam, p, err in procs:
+        rows, killed, etxt = read_child(p, err, deadline)
+        pending.append((fam, rows, killed, etxt))
+    for fam, rows, killed, etxt in pending:
+        judge_inherit(ctx, fam, rows, killed, etxt, deadline - t0, cap)
+
+
 # ----------------------------------------------------------------- stream: e2e
 
 class Watchdog(BaseException):
@@ -621,6 +899,25 @@ def guarded(fn, seconds):
         signal.signal(signal.SIGALRM, old)
 
 
+CONFIRMED_HANGS = [0]
+
+
+def guarded_confirmed(ctx, fn, seconds, reset=None):
+    """guarded(), but a wall-clock limit alone is no verdict on a loaded machine: a query that hits
+    it is run again with three times the limit; a real hang repeats.  After three confirmed hangs
+    in one run further ones are reported without the second attempt."""
+    k, v, dt = guarded(fn, seconds)
+    if k == 'hang' and CONFIRMED_HANGS[0] < 3:
+        if reset is not None:
+            reset()
+        k, v, dt = guarded(fn, 3 * seconds)
+        if k == 'hang':
+            CONFIRMED_HANGS[0] += 1
+        else:
+            ctx.count('slow', None, nontrivial=False, bucket='over %.0f s wall once, then %s in %.1f s' % (seconds, k, dt))
+    return k, v, dt
+
+
 def dominant_frame(e):
     """the jedi frame (file:function) that occurs most often in the traceback of a RecursionError"""
     import traceback
@@ -662,7 +959,7 @@ def e2e_one(ctx, counter, label, src, positions, cap, timeout, kind, path=None, 
                 return run_query(jedi.Script(src, **kw), q, line, col)
             how = "jedi.Script(source).%s(%d, %d)" % (q, line, col)
             case = {'label': label, 'source': src, 'query': q, 'line': line, 'column': col}
-            k, v, dt = guarded(go, timeout)
+            k, v, dt = guarded_confirmed(ctx, go, timeout, counter.reset)
             nonbuiltin = [n for key, n in counter.per_ctx.items() if key not in counter.generous]
             worst = max(nonbuiltin or [0])
             ctx.count('e2e', (src, q, line, col), nontrivial=counter.total > 0,
@@ -752,7 +1049,8 @@ def stream_e2e(ctx, cap):
                 src = mk(n)
                 line, col = P.last_pos(src)
                 counter.reset()
-                k, v, dt = guarded(lambda: run_query(jedi.Script(src), 'infer', line, col), timeout)
+                k, v, dt = guarded_confirmed(ctx, lambda: run_query(jedi.Script(src), 'infer', line, col), timeout,
+                                             counter.reset)
                 work[n] = counter.total
                 contexts = max(1, len(counter.per_ctx))
                 ctx.count('scaling', (fam, n), nontrivial=True, bucket=fam,
@@ -794,6 +1092,11 @@ def compare(ctx, cases, answers):
         stream = key[0]
         if isinstance(ans, dict) and 'protocol_error' in ans:
             raise common.InfraError('driver protocol error: %r' % ans)
+        if stream == 'mro':
+            ans = mro_model_view(key[1], ans)
+            ctx.count('mro', (key[1]['bases'], key[1]['root']), bucket=key[2],
+                      nontrivial=isinstance(impl.get('out'), list) and len(set(impl['out'])) >= 4,
+                      sample={'bases': key[1]['bases'], 'root': key[1]['root'], 'impl': impl})
         if stream == 'detector':
             nontriv = any(isinstance(e, list) and e[0] for e in impl['ev'])
             ctx.count('detector', (key[1], key[2]), nontrivial=nontriv,
@@ -820,6 +1123,7 @@ def compare(ctx, cases, answers):
 
 def run(ctx):
     from translator import extract
+    CONFIRMED_HANGS[0] = 0
     reqs = []
     cases = []
     cap, factor = 300, 100
@@ -834,19 +1138,53 @@ def run(ctx):
                 factor = ast.literal_eval(n.value)
     except Exception:
         pass
+    t0 = [time.time()]
+
+    def lap(name):
+        if os.environ.get('VERIF_C15_TIMING'):
+            sys.stderr.write('[c15 timing] %-10s %.1f s\n' % (name, time.time() - t0[0]))
+        t0[0] = time.time()
+    lap('pre-run %.1f s; start' % (time.time() - ctx.t0))
+    inherit = start_inherit(ctx)
     cases += stream_detector(ctx, reqs)
+    lap('detector')
     cases += stream_decorator(ctx, reqs)
+    lap('decorator')
     cases += stream_memo(ctx, reqs)
+    lap('memo')
     cases += stream_guard(ctx, reqs)
     cases += stream_limit(ctx, reqs, cap, factor)
-    stream_gencache(ctx)
+    lap('guard+limit')
+    cases += stream_mro(ctx, reqs)
+    lap('mro')
+    # the Lean driver works on the requests in background processes while the end-to-end streams run
+    from concurrent.futures import ThreadPoolExecutor
+    pool = ThreadPoolExecutor(1)
+    future = pool.submit(common.run_driver_parallel, 'C15', reqs) if ctx.model_ok else None
     try:
-        stream_e2e(ctx, cap)
-    except common.TieBroken as e:
-        ctx.tie_broken('hook:' + e.what, e.detail)
-    if ctx.model_ok:
-        answers = common.run_driver_parallel('C15', reqs)
+        stream_gencache(ctx)
+        lap('gencache')
+        try:
+            stream_e2e(ctx, cap)
+        except common.TieBroken as e:
+            ctx.tie_broken('hook:' + e.what, e.detail)
+        lap('e2e')
+        collect_inherit(ctx, inherit, cap)
+        lap('inherit')
+    finally:
+        for _fam, p_, _err in inherit[0]:
+            if p_.poll() is None:
+                p_.kill()
+        answers = None
+        try:
+            if future is not None:
+                answers = future.result()
+        finally:
+            pool.shutdown(wait=True)
+    if answers is not None:
+        lap('driver')
         compare(ctx, cases, answers)
+        lap('compare')
     else:
         ctx.notes.append('model did not build: correspondence skipped, oracle only')
     ctx.obligations['assumptions'] = [
@@ -857,13 +1195,34 @@ def run(ctx):
         'inference_state_method_generator_cache (lazy, interleaved generators) is not modelled in Lean; '
         'stream gencache checks termination, at-most-once body creation and replay equality directly',
         'Python-level nesting depth is the model\'s fuel; RecursionError / a hang is Err.fuel',
+        'Model.Mro covers acyclic class hierarchies whose bases infer to one class each (stream mro); '
+        'cyclic inheritance is cut by the generator cache\'s sentinel, which is not modelled in Lean '
+        '(stream gencache, fixed shapes self-/cyclic-inheritance of stream e2e); that the cost of a query '
+        'on an instance is polynomial in the MRO work is sampled by the inheritance families of stream '
+        'scaling (MRO entries listed, _infer_node entries, function calls, CPU seconds)',
     ]
 
 
 def replay(ctx, payload):
     import jedi
     inp = payload['input']
-    if 'source' in inp and 'query' in inp:
+    if isinstance(inp, dict) and inp.get('family') in P.INHERIT_FAMILIES:
+        n = inp['n']
+        sizes = sorted({s_ for s_ in (n // 4, n // 2, n) if s_ >= 1})
+        started = start_inherit(ctx, [inp['family']], sizes)
+        for fam, p, err in started[0]:
+            rows, killed, etxt = read_child(p, err, time.time() + 300)
+            for r in rows:
+                if r.get('ev') == 'done' and r['q'] == inp.get('query', r['q']):
+                    print('n=%-3d %-8s classes=%-3d outcome=%-9s mro_items=%-7d longest_listing=%-6d '
+                          'infer_node_entries=%s calls=%s cpu=%.2fs (item cap %s, call cap %s, cpu cap %.1fs)'
+                          % (r['n'], r['q'], r['classes'], r['outcome'], r['items'], r['maxlen'], r['entries'],
+                             r.get('calls'), r['cpu'], r['item_cap'], r.get('call_cap'), r['cpu_cap']))
+            if killed:
+                print('child killed after 300 s')
+            if etxt.strip():
+                print(etxt[-1500:])
+    elif 'source' in inp and 'query' in inp:
         with InferCounter() as counter:
             k, v, dt = guarded(lambda: run_query(jedi.Script(inp['source']), inp['query'], inp['line'],
                                                  inp['column']), 60)
